@@ -250,6 +250,7 @@ class Translator:
         self.type_overrides: Dict[str, Callable] = cfg.get("type_overrides", {})
         self.consts: Dict[str, str] = cfg.get("consts", {})
         self.noop_re = [re.compile(p) for p in cfg.get("noops", [])]
+        self.dead_re = [re.compile(p) for p in cfg.get("dead_calls", [])]
         self.globals = Storage("g", True)
         self.threads: List[ThreadCtx] = []
         self.cur: Optional[ThreadCtx] = None
@@ -381,6 +382,9 @@ class Translator:
             d = self.src.defs.get(ty.name)
             if d:
                 return self.alloc_def(d, ty, name, dims, storage)
+        for pat in self.cfg.get("opaque_types", []):
+            if re.search(pat, getattr(ty, "full", "") or ty.name or ""):
+                return UnitN(ty, name, dims, storage)
         raise TranslateError(f"no layout for type {ty} ({name})")
 
     def alloc_def(self, d: srcdefs.Def, ty: Ty, name, dims, storage) -> SNode:
@@ -694,6 +698,8 @@ class Translator:
                 if p[1] >= len(n.fields):
                     raise TranslateError(f"field {p[1]} out of range for {n.name} ({n.ty})")
                 return Loc(n.fields[p[1]], loc.idxs)
+            if n.kind == "unit":
+                return loc          # a field of an abstracted (opaque) value is opaque; reading a scalar out of it is refused later
             raise TranslateError(f"field projection on {n.kind} {n.name}")
         if k == "downcast":
             if n.kind != "enum":
@@ -993,6 +999,20 @@ class Translator:
             counters[h] = (c, spec[0], spec[1])
         inst.counters = counters
         inst.pos = pos
+        # one backward goto per loop head (CBMC counts unwindings per backward goto): all retreating edges of a head with
+        # several of them go forward to a latch placed right after the last of their source blocks
+        back_srcs = {}
+        for b in order:
+            for s_ in self._succs(b):
+                if s_ in pos and pos[s_] <= pos[b]:
+                    back_srcs.setdefault(s_, []).append(b)
+        inst.latch = {}
+        latch_after = {}
+        for h, srcs in back_srcs.items():
+            if len(srcs) > 1:
+                last = max(srcs, key=lambda x: pos[x])
+                inst.latch[h] = f"{inst.label(h)}_latch"
+                latch_after.setdefault(last, []).append(h)
         if 0 in counters:
             self.emit(f"{counters[0][0]} = 0;")
         for b in order:
@@ -1005,6 +1025,14 @@ class Translator:
                     self.emit(f"if ({c} >= {K}) {{ __CPROVER_assume(0); }} {c}++;")
                 else:
                     self.emit(f'if ({c} >= {K}) {{ __CPROVER_assert(0, "BOUND loop bound {K} in {key} bb{b}"); __CPROVER_assume(0); }} {c}++;')
+            if blk.term.kind == "call" and any(r.search(blk.term.func) for r in self.dead_re):
+                # environment assumption (listed in evidence): this call site is never reached (e.g. tracing events with logging off)
+                self.models_used["dead:" + self.canon_key(strip_generics(self.normalize_callee(blk.term.func)))[:80]] = 1
+                self.emit("__CPROVER_assume(0); /* dead call site by environment assumption */")
+                for h in latch_after.get(b, []):
+                    self.cur.label(inst.latch[h])
+                    self.emit(f"goto {inst.label(h)};")
+                continue
             for st in blk.stmts:
                 if st.kind == "nop":
                     continue
@@ -1022,6 +1050,9 @@ class Translator:
                 if "\n    in " in str(e):
                     raise
                 raise TranslateError(f"{e}\n    in {key} bb{b}: {blk.term.raw}") from None
+            for h in latch_after.get(b, []):
+                self.cur.label(inst.latch[h])
+                self.emit(f"goto {inst.label(h)};")
         self.cur.label(inst.ret_label)
         if dest is not None and 0 in inst.locals:
             self.copy(dest, Loc(inst.locals[0], []))
@@ -1034,10 +1065,13 @@ class Translator:
         cs = getattr(inst, "counters", {})
         if bb in cs and inst.pos.get(bb, 0) > inst.pos.get(inst.curbb, 0):
             reset = f"{cs[bb][0]} = 0; "
+        target = inst.label(bb)
+        if bb in getattr(inst, "latch", {}) and inst.pos.get(bb, 0) <= inst.pos.get(inst.curbb, 0):
+            target = inst.latch[bb]
         if cond:
-            self.emit(f"if ({cond}) {{ {reset}goto {inst.label(bb)}; }}")
+            self.emit(f"if ({cond}) {{ {reset}goto {target}; }}")
         else:
-            self.emit(f"{reset}goto {inst.label(bb)};")
+            self.emit(f"{reset}goto {target};")
 
     def terminator(self, inst: FnInstance, t: Term):
         k = t.kind
@@ -1234,6 +1268,10 @@ class Translator:
                     raise TranslateError(f"closure body not found: {m.group(0)}")
                 # zero-sized closure: first param is the (unit) environment
                 return self.inline(fn, [VUnit()] + args, dest)
+            mctor = re.search(r"::(Err|Ok|Some)\s*$", closure_val.text.strip().rstrip("}").strip())
+            if mctor and dest is not None and dest.node.kind == "enum":
+                # enum tuple-variant constructor used as a function value (e.g. `.map_or(Ok(x), Err)`)
+                return self.store(dest, VAgg(list(args), variant=mctor.group(1)))
             f = self.find_fn(closure_val.text)
             if f is None:
                 raise TranslateError(f"fn item not found: {closure_val.text}")
